@@ -13,7 +13,11 @@ RULE = ("run: the full product 6 entry points x 16 type shapes ({ZST,sized}x{Dro
         "panic: a panic injected at every call index / generator index of every thread for small configurations "
         "(quick: sampled; thorough: exhaustive); tuned: no sample_size, a call costs 7..101 virtual ticks so that tuning takes "
         "2-5 rounds of sizes 1,2,4,..., 0-4 input counters of different kinds, threads 1-3, by-value and by-ref entry points; "
-        "the model is driven with the round sizes read from thread 0's recorded log. Instrumented values carry thread<<32|ordinal; generator, counter "
+        "the model is driven with the round sizes read from thread 0's recorded log; counter-call-sequences: a random "
+        "sequence of Bencher::counter (constants, also before with_inputs), input_counter and (u64 inputs) count_inputs_as "
+        "calls over 1-4 kinds, explicit and tuned sizes, bench and test mode: the input counters in force are resolved by the "
+        "model (last call of a kind decides), every input must be logged by exactly those, and the recorded per-sample counts "
+        "(1 per iteration for every input-based kind, the constant otherwise) are compared too. Instrumented values carry thread<<32|ordinal; generator, counter "
         "closures, benchmarked closure and Drop impls append to the hook's event log, which also holds every clock "
         "read, barrier wait, tally clear and snapshot. Per-thread logs must equal the model's; the extracted sb_thread / "
         "sb_nodouble are evaluated on the implementation's logs. Non-trivial = at least one benchmarked call happened.")
@@ -22,6 +26,8 @@ ASSUMPTIONS = [
     "the optimiser (black_box) and the fences around timestamp reads: program order per thread is assumed",
     "number of rounds for explicit sample_size/sample_count is taken as ceil(count/threads) (group `loop` proves the loop); "
     "the barrier protocol itself is group `round`'s subject",
+    "count_inputs_as registers a closure of the crate itself: that it sees every input is checked through the recorded "
+    "per-sample counts (every input counts 1), not through the event log",
     "ZST values have no identity: their events are numbered by per-thread ordinals, so for ZSTs the check is on counts and order",
     "the barrier waits made by Drop for SampleBarrier while a thread unwinds (hook H5, events with a = 3) are part of the compared "
     "logs: the model's cut program ends with exactly the waits of the sample not yet reached (GuardWait); that they make the other "
@@ -89,6 +95,8 @@ def streams(tier, rng):
                             rng.choice([1, 2, 3, 4, 7, 10]), rng.choice([1, 2, 3, 4, 5, 8]), int(rng.random() < 0.2)))
     pan = panic_cases(tier, rng)
     tuned = [S.rand_tuned(rng) for _ in range(1200 if tier == "quick" else 20000)]
+    cseq = [S.counter_seq_case(rng, False) for _ in range(2500 if tier == "quick" else 40000)]
+    cseq_t = [S.counter_seq_case(rng, True) for _ in range(800 if tier == "quick" else 12000)]
     return [
         Stream("corpus-run", "run", _corpus("run"), nontrivial=nontrivial),
         Stream("corpus-panic", "panic", _corpus("panic"), nontrivial=nontrivial),
@@ -102,6 +110,11 @@ def streams(tier, rng):
                hist=S.hist(tuned)),
         Stream("tuned-sample-size-release", "tuned", tuned[::2], nontrivial=nontrivial,
                model_input=lambda c, i: c + "\t" + i, release=True),
+        # any order of input_counter / count_inputs_as / constant counter calls: every input is shown to exactly
+        # the input counters in force at the end (the last call of a kind decides)
+        Stream("counter-call-sequences", "run", cseq, nontrivial=nontrivial, hist=S.hist(cseq)),
+        Stream("counter-call-sequences-tuned", "tuned", cseq_t, nontrivial=nontrivial,
+               model_input=lambda c, i: c + "\t" + i, hist=S.hist(cseq_t)),
         # optimised build: the ZST fast path, forget/zeroed and black_box are what an optimiser may touch
         Stream("run-full-product-release", "run", full if tier != "quick" else full[::3], nontrivial=nontrivial, release=True),
         Stream("panic-injection-release", "panic", pan if tier != "quick" else pan[::2], nontrivial=nontrivial, release=True),
